@@ -22,6 +22,15 @@ import (
 // EvalSlice is the value of a constant slice or array.
 type EvalSlice struct{ Elems []any }
 
+// EvalMap is the value of a constant map: keys by their exact constant spelling;
+// a value is nil when it is not a scalar constant (the struct{}{} of a set).
+type EvalMap struct {
+	Keys map[string]constant.Value
+	Vals map[string]any
+}
+
+func evalMapKey(c constant.Value) string { return c.Kind().String() + ":" + c.ExactString() }
+
 type evalPtr struct {
 	sl  *EvalSlice
 	idx int
@@ -149,11 +158,13 @@ func (e *evaluator) val(env map[ssa.Value]any, v ssa.Value) any {
 		return c.Value
 	}
 	if g, ok := v.(*ssa.Global); ok {
-		sl := e.p.constGlobal(g)
-		if sl == nil {
-			e.fail()
+		if sl := e.p.constGlobal(g); sl != nil {
+			return sl
 		}
-		return sl
+		if m := e.p.constMapGlobal(g); m != nil {
+			return m
+		}
+		e.fail()
 	}
 	r, ok := env[v]
 	if !ok {
@@ -218,6 +229,8 @@ func (e *evaluator) instr(env map[ssa.Value]any, v ssa.Value) any {
 				return pt.sl.Elems[pt.idx]
 			case *EvalSlice: // load of a constant global holding a slice/array
 				return pt
+			case *EvalMap:
+				return pt
 			}
 		}
 	case *ssa.IndexAddr:
@@ -227,6 +240,28 @@ func (e *evaluator) instr(env map[ssa.Value]any, v ssa.Value) any {
 			e.fail() // would panic at run time: not a value
 		}
 		return evalPtr{sl, int(i)}
+	case *ssa.Lookup:
+		m, ok := e.val(env, x.X).(*EvalMap)
+		k, kok := e.val(env, x.Index).(constant.Value)
+		if !ok || !kok {
+			e.fail()
+		}
+		val, found := m.Vals[evalMapKey(k)]
+		if !found || val == nil {
+			if _, isBasic := x.X.Type().Underlying().(*types.Map).Elem().Underlying().(*types.Basic); !isBasic && !x.CommaOk {
+				e.fail()
+			}
+			if !found {
+				val = zeroOf(x.X.Type().Underlying().(*types.Map).Elem())
+			}
+		}
+		if x.CommaOk {
+			return []any{val, constant.MakeBool(found)}
+		}
+		if val == nil {
+			e.fail()
+		}
+		return val
 	case *ssa.Index:
 		sl, ok := e.val(env, x.X).(*EvalSlice)
 		i, iok := AsInt(e.val(env, x.Index))
@@ -256,6 +291,8 @@ func (e *evaluator) instr(env map[ssa.Value]any, v ssa.Value) any {
 				switch a := e.val(env, x.Call.Args[0]).(type) {
 				case *EvalSlice:
 					return constant.MakeInt64(int64(len(a.Elems)))
+				case *EvalMap:
+					return constant.MakeInt64(int64(len(a.Keys)))
 				case constant.Value:
 					if a.Kind() == constant.String {
 						return constant.MakeInt64(int64(len(constant.StringVal(a))))
@@ -332,6 +369,10 @@ func (p *Prog) constGlobal(g *ssa.Global) *EvalSlice {
 	}
 	var val *EvalSlice
 	stores := 0
+	var inPlace *EvalSlice
+	if _, isMap := g.Type().Underlying().(*types.Pointer).Elem().Underlying().(*types.Map); isMap {
+		return nil
+	}
 	for _, f := range SSAPkgFuncs(g.Pkg.Prog, g.Pkg) {
 		for _, b := range f.Blocks {
 			for _, in := range b.Instrs {
@@ -350,8 +391,137 @@ func (p *Prog) constGlobal(g *ssa.Global) *EvalSlice {
 						if x.Op != token.MUL || !readOnlyUses(x) {
 							return nil
 						}
-					case *ssa.IndexAddr: // array variable indexed in place
-						if !onlyLoaded(x) {
+					case *ssa.IndexAddr: // array variable indexed in place: read anywhere, written once per element in init
+						if f == initFn {
+							if !inPlaceInit(x, g, &inPlace) {
+								return nil
+							}
+						} else if !onlyLoaded(x) {
+							return nil
+						}
+					case *ssa.DebugRef:
+					default:
+						return nil
+					}
+				}
+			}
+		}
+	}
+	if inPlace != nil && stores == 0 {
+		for i, e := range inPlace.Elems {
+			if e == nil {
+				arr := g.Type().Underlying().(*types.Pointer).Elem().Underlying().(*types.Array)
+				z := zeroOf(arr.Elem())
+				if z == nil {
+					return nil
+				}
+				inPlace.Elems[i] = z
+			}
+		}
+		return inPlace
+	}
+	if stores != 1 || inPlace != nil {
+		return nil
+	}
+	return val
+}
+
+// inPlaceInit records `g[i] = const` of the package initialiser (how an array variable with a
+// literal initialiser is lowered): constant index, one store of a constant per element.
+func inPlaceInit(ia *ssa.IndexAddr, g *ssa.Global, acc **EvalSlice) bool {
+	arr, ok := g.Type().Underlying().(*types.Pointer).Elem().Underlying().(*types.Array)
+	if !ok {
+		return false
+	}
+	if *acc == nil {
+		*acc = &EvalSlice{Elems: make([]any, arr.Len())}
+	}
+	i, ok := ConstInt(ia.Index)
+	if !ok || i < 0 || i >= arr.Len() || ia.Referrers() == nil {
+		return false
+	}
+	for _, r := range *ia.Referrers() {
+		switch x := r.(type) {
+		case *ssa.Store:
+			c, isC := x.Val.(*ssa.Const)
+			if x.Addr != ssa.Value(ia) || !isC || c.Value == nil || (*acc).Elems[i] != nil {
+				return false
+			}
+			(*acc).Elems[i] = c.Value
+		case *ssa.DebugRef:
+		default:
+			return false
+		}
+	}
+	return true
+}
+
+// zeroOf is the zero value of a basic type as a constant (nil for anything else).
+func zeroOf(t types.Type) any {
+	bt, ok := t.Underlying().(*types.Basic)
+	if !ok {
+		return nil
+	}
+	switch {
+	case bt.Info()&types.IsInteger != 0:
+		return constant.MakeInt64(0)
+	case bt.Info()&types.IsFloat != 0:
+		return constant.MakeFloat64(0)
+	case bt.Info()&types.IsString != 0:
+		return constant.MakeString("")
+	case bt.Info()&types.IsBoolean != 0:
+		return constant.MakeBool(false)
+	}
+	return nil
+}
+
+// constMapGlobal returns the content of a package-level map variable that is
+// provably constant: stored to exactly once, in the package initialiser, with a
+// fresh make(map…) that is filled in the same block by updates with constant keys
+// (and constant or struct{}{} values) and used for nothing else; every other
+// mention of the variable — in its package, or in the whole program when it is
+// exported — is a load that is only looked up, ranged over or measured with len.
+func (p *Prog) constMapGlobal(g *ssa.Global) *EvalMap {
+	if g == nil || g.Pkg == nil {
+		return nil
+	}
+	if _, ok := g.Type().Underlying().(*types.Pointer).Elem().Underlying().(*types.Map); !ok {
+		return nil
+	}
+	initFn := g.Pkg.Func("init")
+	if initFn == nil {
+		return nil
+	}
+	pkgs := []*ssa.Package{g.Pkg}
+	if g.Object() == nil || g.Object().Exported() {
+		pkgs = g.Pkg.Prog.AllPackages()
+	}
+	var out *EvalMap
+	stores := 0
+	for _, sp := range pkgs {
+		for _, f := range SSAPkgFuncs(g.Pkg.Prog, sp) {
+			for _, b := range f.Blocks {
+				for _, in := range b.Instrs {
+					uses := false
+					for _, op := range in.Operands(nil) {
+						if *op == ssa.Value(g) {
+							uses = true
+						}
+					}
+					if !uses {
+						continue
+					}
+					switch x := in.(type) {
+					case *ssa.Store:
+						if x.Addr != ssa.Value(g) || f != initFn {
+							return nil
+						}
+						stores++
+						if out = literalMap(x); out == nil {
+							return nil
+						}
+					case *ssa.UnOp:
+						if x.Op != token.MUL || !mapReadOnly(x) {
 							return nil
 						}
 					case *ssa.DebugRef:
@@ -365,7 +535,71 @@ func (p *Prog) constGlobal(g *ssa.Global) *EvalSlice {
 	if stores != 1 {
 		return nil
 	}
-	return val
+	return out
+}
+
+func mapReadOnly(v ssa.Value) bool {
+	refs := v.Referrers()
+	if refs == nil {
+		return false
+	}
+	for _, r := range *refs {
+		switch x := r.(type) {
+		case *ssa.Lookup:
+			if x.X != v || x.Index == v {
+				return false
+			}
+		case *ssa.Range, *ssa.DebugRef:
+		case *ssa.Call:
+			bi, ok := x.Call.Value.(*ssa.Builtin)
+			if !ok || bi.Name() != "len" {
+				return false
+			}
+		default:
+			return false
+		}
+	}
+	return true
+}
+
+// literalMap reads `map[K]V{k0: v0, …}` as lowered into the block of the store st.
+func literalMap(st *ssa.Store) *EvalMap {
+	mk, ok := st.Val.(*ssa.MakeMap)
+	if !ok || mk.Block() != st.Block() || mk.Referrers() == nil {
+		return nil
+	}
+	out := &EvalMap{Keys: map[string]constant.Value{}, Vals: map[string]any{}}
+	pos := map[ssa.Instruction]int{}
+	for i, in := range st.Block().Instrs {
+		pos[in] = i
+	}
+	for _, r := range *mk.Referrers() {
+		switch x := r.(type) {
+		case *ssa.MapUpdate:
+			k, isC := x.Key.(*ssa.Const)
+			if x.Map != ssa.Value(mk) || x.Block() != st.Block() || pos[x] > pos[st] || !isC || k.Value == nil {
+				return nil
+			}
+			key := evalMapKey(k.Value)
+			if _, dup := out.Keys[key]; dup {
+				return nil
+			}
+			out.Keys[key] = k.Value
+			if c, ok := x.Value.(*ssa.Const); ok && c.Value != nil {
+				out.Vals[key] = c.Value
+			} else {
+				out.Vals[key] = nil // struct{}{} of a set, or something Eval does not model
+			}
+		case *ssa.Store:
+			if x != st {
+				return nil
+			}
+		case *ssa.DebugRef:
+		default:
+			return nil
+		}
+	}
+	return out
 }
 
 func readOnlyUses(v ssa.Value) bool {
